@@ -17,23 +17,23 @@ type Group struct {
 
 // Common entities used across the full alphabet.
 var (
-	FN1   = NodeSpec{Node: "n1", ID: "id1"}
-	FN1b  = NodeSpec{Node: "n1b", ID: "id1"}
-	FN2   = NodeSpec{Node: "n2"}
-	FN1p  = NodeSpec{Node: "n1", Peer: "p1"}
-	FWeb  = SvcSpec{Name: "web", Port: 80, Tags: []string{"v1"}}
-	FWeb2 = SvcSpec{ID: "web-2", Name: "web", Port: 80, Tags: []string{"v2"}}
-	FProxy = SvcSpec{ID: "web-proxy-1", Name: "web-proxy", Kind: structs.ServiceKindConnectProxy, DestName: "web", Upstreams: []string{"db"}, Port: 21000}
+	FN1     = NodeSpec{Node: "n1", ID: "id1"}
+	FN1b    = NodeSpec{Node: "n1b", ID: "id1"}
+	FN2     = NodeSpec{Node: "n2"}
+	FN1p    = NodeSpec{Node: "n1", Peer: "p1"}
+	FWeb    = SvcSpec{Name: "web", Port: 80, Tags: []string{"v1"}}
+	FWeb2   = SvcSpec{ID: "web-2", Name: "web", Port: 80, Tags: []string{"v2"}}
+	FProxy  = SvcSpec{ID: "web-proxy-1", Name: "web-proxy", Kind: structs.ServiceKindConnectProxy, DestName: "web", Upstreams: []string{"db"}, Port: 21000}
 	FProxy2 = SvcSpec{ID: "web-proxy-2", Name: "web-proxy", Kind: structs.ServiceKindConnectProxy, DestName: "web", Upstreams: []string{"db"}, Port: 21000}
-	FDB   = SvcSpec{Name: "db", Native: true, Port: 5432}
-	FTGW  = SvcSpec{Name: "tgw", Kind: structs.ServiceKindTerminatingGateway, Port: 8443}
-	FIGW  = SvcSpec{Name: "igw", Kind: structs.ServiceKindIngressGateway, Port: 8080}
-	FC1   = CheckSpec{ID: "c1", Status: api.HealthPassing}
-	FC1c  = CheckSpec{ID: "c1", Status: api.HealthCritical}
-	FSC1  = CheckSpec{ID: "sc1", Status: api.HealthPassing, ServiceID: "web"}
+	FDB     = SvcSpec{Name: "db", Native: true, Port: 5432}
+	FTGW    = SvcSpec{Name: "tgw", Kind: structs.ServiceKindTerminatingGateway, Port: 8443}
+	FIGW    = SvcSpec{Name: "igw", Kind: structs.ServiceKindIngressGateway, Port: 8080}
+	FC1     = CheckSpec{ID: "c1", Status: api.HealthPassing}
+	FC1c    = CheckSpec{ID: "c1", Status: api.HealthCritical}
+	FSC1    = CheckSpec{ID: "sc1", Status: api.HealthPassing, ServiceID: "web"}
 	FSessCk = CheckSpec{ID: "sessck", Status: api.HealthCritical, Type: "session", SessName: "lockname"}
-	FS1   = SessionSpec{Name: "s1", Node: "n1", Behavior: structs.SessionKeysRelease, NodeChecks: []string{"c1"}}
-	FS2   = SessionSpec{Name: "s2", Node: "n1", Behavior: structs.SessionKeysDelete, SessName: "lockname", TTL: "30s"}
+	FS1     = SessionSpec{Name: "s1", Node: "n1", Behavior: structs.SessionKeysRelease, NodeChecks: []string{"c1"}}
+	FS2     = SessionSpec{Name: "s2", Node: "n1", Behavior: structs.SessionKeysDelete, SessName: "lockname", TTL: "30s"}
 )
 
 // FullAlphabet returns one or more ops for every registered FSM command type, in groups.
@@ -63,8 +63,8 @@ func FullAlphabet() []Group {
 	}}
 	sess := Group{"session", []world.Op{
 		FS1.Create(), FS2.Create(), SessionDestroy("s1"), SessionDestroy("s2"),
-		SessionSpec{Name: "s3", Node: "n9", Behavior: structs.SessionKeysRelease}.Create(), // rejected: node missing
-		SessionSpec{Name: "s3", Node: "n1", Behavior: "bogus"}.Create(),                      // rejected: behaviour
+		SessionSpec{Name: "s3", Node: "n9", Behavior: structs.SessionKeysRelease}.Create(),                                              // rejected: node missing
+		SessionSpec{Name: "s3", Node: "n1", Behavior: "bogus"}.Create(),                                                                 // rejected: behaviour
 		SessionSpec{Name: "s4", Node: "n1", Behavior: structs.SessionKeysRelease, NodeChecks: []string{"c1", "nope", "nope2"}}.Create(), // rejected: several missing checks
 	}}
 	txn := Group{"txn", []world.Op{
@@ -201,6 +201,6 @@ func fullSeeds() map[string][]world.Op {
 			KVSpec{Verb: api.KVSet, Key: "a", Val: "x"}.Op()},
 		// two chains that refer to each other, so that one config entry write can break both at once
 		"mesh+mutual-chains": nil,
-		"legacy-intentions": {LegacyIxnSet("i1", "db", "web", structs.IntentionActionAllow, false), LegacyIxnSet("i2", "*", "web", structs.IntentionActionDeny, false)},
+		"legacy-intentions":  {LegacyIxnSet("i1", "db", "web", structs.IntentionActionAllow, false), LegacyIxnSet("i2", "*", "web", structs.IntentionActionDeny, false)},
 	}
 }
